@@ -35,7 +35,7 @@ CLONABLE = {f'{ns}clonable_t<nano::{c}>': None for ns in ('', 'nano::') for c in
 SOLVER_H = 'specs/C18/solver.h'
 STU = 'src/solver.cpp'
 LS_PTR = [(r'^nano::lsearch0_t$', 'struct nv_ls0'), (r'^nano::lsearchk_t$', 'struct nv_lsk')]
-STYPES = [(r'^nano::solver_t$|^nano::solver_(gd|cgd|lbfgs|quasi)\w*_t$', 'struct nv_solver'), (r'^nano::lsearch_t$', 'struct nv_lsearch'),
+STYPES = [(r'^nano::solver_t$|^nano::solver_(gd|cgd|lbfgs|quasi|sgm|cocob|osga|ellipsoid|pgm|dgm|fgm|asga|pdsgm|universal)\w*_t$', 'struct nv_solver'), (r'^nano::lsearch_t$', 'struct nv_lsearch'),
           (r'^nano::function_t$', 'struct nv_function'),
           (r'^(nano::)?rlsearch0_t$|^std::unique_ptr<nano::lsearch0_t', 'struct nv_ls0*'),
           (r'^(nano::)?rlsearchk_t$|^std::unique_ptr<nano::lsearchk_t', 'struct nv_lsk*'),
@@ -45,12 +45,15 @@ STYPES = [(r'^nano::solver_t$|^nano::solver_(gd|cgd|lbfgs|quasi)\w*_t$', 'struct
           (r'std::tuple_element<0, (const )?std::tuple<bool, double>>::type', '_Bool'),
           (r'std::tuple_element<1, (const )?std::tuple<bool, double>>::type', 'double')]
 SOLVER_ERASED = frame.ERASED + [r'^(nano::)?solver_state_t$', r'^std::deque<', r'^std::vector<', r'__alloc_traits<.*::value_type$']
-PURE = [(r'^(fabs|abs|sqrt|exp|log)\|.*#1$', 'nv_pure1({0})'), (r'^(max|min|pow)\|.*#2$', 'nv_pure2({0}, {1})'), (r'^clamp\|.*#3$', 'nv_pure3({0}, {1}, {2})'),
+PURE = [(r'^(fabs|abs|sqrt|exp|log|isfinite)\|.*#1$', 'nv_pure1({0})'), (r'^(max|min|pow)\|.*#2$', 'nv_pure2({0}, {1})'), (r'^clamp\|.*#3$', 'nv_pure3({0}, {1}, {2})'),
         (r'^(max|min|lowest|epsilon|quiet_NaN|infinity)\|[^|]*\(\) noexcept', '@nondet')]
-SCALLS = [(r'^operator->\|', '{0}'), (r'^move\|', '{0}'), (r'^ctor\|nano::lsearch_t\|', 'nv_lsearch_make({&0}, {&1})')] + PURE
+# scalar helper functions of the solver TUs (pure functions of doubles: src/solver/asga.cpp solve_sk1, nano::epsilon0 ..)
+SCALLS = [(r'^operator->\|', '{0}'), (r'^move\|', '{0}'), (r'^ctor\|nano::lsearch_t\|', 'nv_lsearch_make({&0}, {&1})'),
+          (r'^solve_sk1\|double \(', 'nv_pure3({0}, {1}, {2})'), (r'^epsilon[0-3]\|double \(\)', '@nondet')] + PURE
 SMEMBERS = [(r'^clone\|.*lsearch0_t', 'nv_ls0_clone'), (r'^clone\|.*lsearchk_t', 'nv_lsk_clone'),
             (r'^size\|nano::function_t', '{self}->m_size'), (r'^fcalls\|nano::function_t', '{self}->m_fcalls'),
-            (r'^gcalls\|nano::function_t', '{self}->m_gcalls'), (r'^clear_statistics\|nano::function_t', 'function_clear_statistics'),
+            (r'^gcalls\|nano::function_t', '{self}->m_gcalls'), (r'^vgrad\|nano::function_t\|#2', 'nv_fn_vgrad2({self}, {0}, {1})'),
+            (r'^smooth\|nano::function_t', '@nondet'), (r'^strong_convexity\|nano::function_t', '{self}->m_strong_convexity'), (r'^clear_statistics\|nano::function_t', 'function_clear_statistics'),
             (r'^(info|warn|error)\|nano::logger_t', '@drop'), (r'^done\|nano::solver_t', 'solver_done'),
             (r'^make_lsearch\|', 'solver_make_lsearch'), (r'^get\|nano::lsearch_t', 'lsearch_get'),
             (r'^get\|(const )?std::unique_ptr<', '(*{self})'),
@@ -60,7 +63,18 @@ SMEMBERS = [(r'^clone\|.*lsearch0_t', 'nv_ls0_clone'), (r'^clone\|.*lsearchk_t',
 BODIES = [('gd_do_minimize', 'src/solver/gd.cpp', 'nano::solver_gd_t', 'nano::solver_gd_t', ()),
           ('cgd_do_minimize', 'src/solver/cgd.cpp', 'nano::solver_cgd_', 'nano::solver_cgd_t', ()),
           ('lbfgs_do_minimize', 'src/solver/lbfgs.cpp', 'nano::solver_lbfgs_t', 'nano::solver_lbfgs_t', ()),
-          ('quasi_do_minimize', 'src/solver/quasi.cpp', 'nano::solver_quasi_', 'nano::solver_quasi_t', ())]
+          ('quasi_do_minimize', 'src/solver/quasi.cpp', 'nano::solver_quasi_', 'nano::solver_quasi_t', ()),
+          ('sgm_do_minimize', 'src/solver/sgm.cpp', 'nano::solver_sgm_t', 'nano::solver_sgm_t', ()),
+          ('cocob_do_minimize', 'src/solver/cocob.cpp', 'nano::solver_cocob_t', 'nano::solver_cocob_t', ())]
+# bodies whose loop frames are generated (frame.auto_loop_frames): every local in scope + the caller's function object
+AUTO_BODIES = [('osga_do_minimize', 'src/solver/osga.cpp', 'nano::solver_osga_t', 'nano::solver_osga_t'),
+               ('ellipsoid_do_minimize', 'src/solver/ellipsoid.cpp', 'nano::solver_ellipsoid_t', 'nano::solver_ellipsoid_t'),
+               ('pgm_do_minimize', 'src/solver/universal.cpp', 'nano::solver_', 'nano::solver_pgm_t'),
+               ('dgm_do_minimize', 'src/solver/universal.cpp', 'nano::solver_', 'nano::solver_dgm_t'),
+               ('fgm_do_minimize', 'src/solver/universal.cpp', 'nano::solver_', 'nano::solver_fgm_t'),
+               ('asga2_do_minimize', 'src/solver/asga.cpp', 'nano::solver_asga', 'nano::solver_asga2_t'),
+               ('asga4_do_minimize', 'src/solver/asga.cpp', 'nano::solver_asga', 'nano::solver_asga4_t'),
+               ('pdsgm_do_minimize', 'src/solver/pdsgm.cpp', 'nano::solver_pdsgm_t', 'nano::solver_pdsgm_t')]
 CGD_BETAS = ['hs', 'fr', 'pr', 'cd', 'ls', 'dy', 'n', 'dycd', 'dyhs', 'frpr']
 QUASI_UPDATES = ['sr1', 'dfp', 'bfgs', 'hoshino', 'fletcher']
 
@@ -103,6 +117,20 @@ def solver_targets():
         body = Fn(cname, tu, 'do_minimize', flt=flt, self_struct='struct nv_solver', **common())
         ts.append(T(cname, [body, done(), mk(), ctor(), lsget()], SOLVER_H, pre=solver_layout(tu, flt, cls, lb),
                     replace=['nv_cgd_beta', 'nv_quasi_update'], enums=[(tu, 'nano::quasi_initialization')] if 'quasi' in cname else []))
+    for cname, tu, flt, cls in AUTO_BODIES:
+        c = common()
+        c['hooks'] = c['hooks'][:-1] + [c['stmt_hooks'][0].__self__.field_hook] + c['hooks'][-1:]
+        c['opaque'] = SOLVER_ERASED + [r'proxy_t$', r'model_t$', r'^(nano::)?universal']
+        short = cls.split('::')[-1]
+        body = Fn(cname, tu, 'do_minimize', flt=flt, select=mg(f'{short}11do_minimize'), self_struct='struct nv_solver', **c)
+        local_bases = {'src/solver/universal.cpp': ('nano::solver_universal_t',), 'src/solver/asga.cpp': ('nano::solver_asga_t',)}.get(tu, ())
+        base_pre = solver_layout(tu, flt, cls, local_bases)
+
+        def pre(bp=base_pre, body=body, cname=cname):
+            text, info = bp()
+            loops = frame.auto_loop_frames(body, extra='NV_FN_LOOP_ASSIGNS')
+            return text + f'#define NV_CONTRACT_{cname} NV_MINIMIZE_FRAME(function)\n' + loops, info
+        ts.append(T(cname, [body, done()], SOLVER_H, pre=pre))
     # virtual const helpers used by contract in the bodies above: every implementation against the same frame
     for k in CGD_BETAS:
         f = Fn(f'cgd_beta_{k}', 'src/solver/cgd.cpp', 'beta', flt='nano::solver_cgd_', select=mg(f'solver_cgd_{k}_t4beta'), self_struct='struct nv_solver', **common())
@@ -385,7 +413,9 @@ def wlearner_targets():
     def common():
         track = frame.make_track()
         return dict(types=WTYPES, opaque=WL_ERASED, hooks=[track.field_hook, track.expr_hook], stmt_hooks=[track.stmt_hook], uf_float=True, self_struct='struct nv_wl',
-                    calls=PURE, members=[(r'^split\|nano::wlearner_t', 'nv_wl_split({self}, {&0}, {1})')])
+                    calls=PURE, members=[(r'^split\|nano::wlearner_t', 'nv_wl_split({self}, {&0}, {1})'),
+                                         (r'^scale\|nano::\w*wlearner_t', 'nv_wl_scale({self}, {0})'),
+                                         (r'^size\|std::vector<((\(anonymous namespace\)|nano::table_wlearner_t)::)?cache_t', '{self}->n')])
     ops = [('stump_predict_op', 'src/wlearner/stump.cpp', 'nano::stump_wlearner_t', 0), ('affine_predict_op', 'src/wlearner/affine.cpp', 'nano::affine_wlearner_t', 0),
            ('hinge_predict_op_left', 'src/wlearner/hinge.cpp', 'nano::hinge_wlearner_t', 0), ('hinge_predict_op_right', 'src/wlearner/hinge.cpp', 'nano::hinge_wlearner_t', 1),
            ('table_predict_op', 'src/wlearner/table.cpp', 'nano::table_wlearner_t', 0)]
@@ -476,19 +506,20 @@ def build(tier):
         'targets': targets, 'vcs': [], 'bounded': lint_vcs(),
         'decided': [
             'METHOD: two threads race on an object only if at least one of them writes it.  Every target is the REAL function (clang AST -> C) under a DFCC contract whose assigns clause is the complete list of what it may write; CBMC checks every store of the extracted text and every footprint write (one per possibly-mutating mention of an erased object, read off clang\'s const analysis) against it, on every path, for all inputs.  C struct layouts are generated from the class definitions on every run (bases flattened, `mutable` recorded), so a member added to a class is part of the frame without touching the spec; pointer / unique_ptr / reference members are C pointers to separate objects (C++ constness does not reach through them, the frame proof does)',
-            'SOLVER shared by all fold / trial tasks: solver_t::minimize() const, solver_t::done() const, solver_t::make_lsearch() const and the bodies do_minimize() const of gd, cgd (all 10 beta formulas), lbfgs, quasi (all 5 update formulas) write NOTHING of the solver object and NOTHING of the two line-search prototypes it owns (m_lsearch0 / m_lsearchk: unique_ptr members, writable through a const solver as far as C++ is concerned); make_lsearch() returns two fresh clones, different from the prototypes, and sets the parameters on the clones; the history-carrying state (lsearch_t::m_last_step_size [mutable], the lsearch0 / lsearchk objects\' own members) that lsearch_t::get() const writes belongs to that per-call pair; what else is written is the caller\'s function object (mutable evaluation counters), states and vectors',
+            'SOLVER shared by all fold / trial tasks: solver_t::minimize() const, solver_t::done() const, solver_t::make_lsearch() const and the bodies do_minimize() const of gd, cgd (all 10 beta formulas), lbfgs (the default solver of ml::params_t), quasi (all 5 update formulas), sgm, cocob, osga, ellipsoid, pgm / dgm / fgm, asga2 / asga4, pdsgm (sda / wda) -- 30 of the 37 registered solver ids -- write NOTHING of the solver object and NOTHING of the two line-search prototypes it owns (m_lsearch0 / m_lsearchk: unique_ptr members, writable through a const solver as far as C++ is concerned); make_lsearch() returns two fresh clones, different from the prototypes, and sets the parameters on the clones; the history-carrying state (lsearch_t::m_last_step_size [mutable], the lsearch0 / lsearchk objects\' own members) that lsearch_t::get() const writes belongs to that per-call pair; what else is written is the caller\'s function object (mutable evaluation counters), states and vectors',
             'LOSS shared by every task: error / value / vgrad const of every registered loss (16 flatten_loss_t instantiations [quick tier: 3 of them, one per kernel family; thorough tier: all] + pinball) and the three resizing wrappers write nothing of the loss object (only the caller\'s output)',
             'DATASET shared by every task: dataset_t::flatten(samples, buffer) const, select(samples, feature, buffer) const (4 buffer kinds), byfeature() const write only the caller\'s buffer: nothing of the dataset and nothing of the generators it owns through unique_ptr',
             'DATASET ITERATORS shared by the chunk tasks of one loop(): targets_iterator_t::targets(tnum, range) const / flatten_iterator_t::flatten(tnum, range) const and the three loop(callback) chunk tasks write only m_targets_buffers[tnum] / m_flatten_buffers[tnum] [mutable]; the four select_iterator_t::loop(samples, features, callback) chunk tasks write only m_buffers[tnum].m_<kind>; the four loop(samples, ifeature, callback) write only m_buffers[0].m_<kind> of the (caller-local) iterator; the cached tensors, statistics, sample indices and the dataset are only read; tnum < size of the buffers vector is a checked obligation of every access (precondition: tnum < concurrency(), C17)',
             'OBJECTIVE FUNCTIONS (one per (trial, fold) task, shared by its chunk tasks): the chunk task of linear::function_t::do_vgrad writes only m_accumulators[tnum] [mutable]; the chunk tasks of gboost scale_function_t / bias_function_t::do_vgrad write only m_accumulators[tnum] and rows [begin, end) of m_values / m_vgrads / m_outputs [mutable], grads_function_t::gradients only rows [begin, end) of m_values / m_vgrads (stated at a ghost row: a row outside the task\'s range is not written); loss, iterator, cluster, outputs of the other learners are only read',
             'TUNING RESULT shared by the (trial, fold) tasks of ml::tune: result_t::store(trial, fold, ..) writes only cell (trial, fold) of m_values and index trial * folds + fold of m_extras (ghost cell / ghost index; the index arithmetic is uninterpreted, injectivity of (trial, fold) -> index is C13); closest_trial / extra / log_path const write nothing; the task lambda writes the result only through store at its own slot (old_trials + index / folds, index % folds), and the only m_extras slot it READS is (closest_trial, fold) with closest_trial < old_trials (a completed batch) or its own slot -- so no task reads a slot another running task writes',
             'FITTED WEAK LEARNERS: the per-sample predict operators of stump / affine / hinge (both sides) / table and dtree_wlearner_t::do_predict const write only the caller\'s outputs view, nothing of the learner',
+            'WEAK LEARNER FITTING (runs on a per-task clone; its select_iterator_t::loop chunk tasks share the local vector `caches`): the chunk tasks of stump / affine / hinge do_fit and of the four table learners (dense, kbest, ksplit, dstep; sclass and mclass loops) write only caches[tnum], nothing of the learner; gradients and samples are only read',
             'LEMMA ("bit-identical to the same call executed alone", reduced to the frames above; not a separate proof): let f be one of the const functions above, called on a shared object S with its own arguments A.  By the frame of f (and of everything else the library runs concurrently on S: the targets of this spec), no concurrently running call writes S or A\'s inputs; the callees f reaches are the same sequential code; therefore every read f performs returns the value it would return if f ran alone, and f -- sequential, deterministic C++ without reads of clocks, random devices or addresses -- computes the same outputs bit for bit.  Assumes: (a) the frame proofs cover every function that runs concurrently on S (they cover the library\'s own sharing listed here, not arbitrary user code); (b) the erased callees write only what they are handed (assumption list); (c) the disjointly written slots really are used by one running task at a time (C17, monitor semantics); (d) no data-dependent non-determinism inside f (uninitialised reads, iteration over pointer-keyed containers): not checked',
         ],
         'not_decided': [
             'interleaving semantics itself: the pool\'s mutex / condition-variable protocol, that two tasks running at the same time have different tnum, that map() returns only after every task finished (C17 proves the sequential protocol under monitor semantics; the schedule quantifier stays open)',
             'schedule independence of the REDUCTION: sum_reduce adds the per-thread accumulators in index order, but which samples went into which accumulator depends on the schedule: floating-point re-association (the property\'s 1e-5 clause) is not decided',
-            'the remaining solver bodies (27 of 36 registered solvers: non line-search ones, bundle / ellipsoid / gradient sampling / universal / penalty), lsearch0 / lsearchk implementations (they run on the per-call clones), program::solver_t; generator_t implementations (flatten / select of ~10 generator classes: assumed const-clean), dataset_t::targets / select(target) (generic visitor lambdas, not extractable), datasource_t, scalar_stats_t::scale, splitter_t::split and tuner_t::optimize (run on the calling thread, before / around the parallel section), wlearner fit (runs on per-task clones), cache_flatten / cache_targets (non-const, run before sharing), linear::evaluate / gboost::evaluate / linear_t::do_predict chunk tasks (rows of caller-local tensors)',
+            'the remaining solver bodies (gradient sampling x4, rqb, fpba1 / fpba2, the penalty / augmented-Lagrangian wrappers), lsearch0 / lsearchk implementations (they run on the per-call clones), program::solver_t; generator_t implementations (flatten / select of ~10 generator classes: assumed const-clean), dataset_t::targets / select(target) (generic visitor lambdas, not extractable), datasource_t, scalar_stats_t::scale, splitter_t::split and tuner_t::optimize (run on the calling thread, before / around the parallel section), the sequential parts of wlearner fit (run on per-task clones), cache_flatten / cache_targets (non-const, run before sharing), linear::evaluate / gboost::evaluate / linear_t::do_predict chunk tasks (rows of caller-local tensors)',
             'loggers: every logger call is dropped from the extracted text (per-task file loggers are made inside the task; what a shared std::ostream does under concurrent writes is outside the model)',
             'user code: function objects, callbacks and custom tuners / generators supplied by a caller',
             'determinism clause (d) of the lemma; ThreadSanitizer-style dynamic evidence',
